@@ -214,8 +214,11 @@ theorem C07_sqMembers_needed :
   · simp [Op.sqMembers, Op.rows, Op.cols]
 
 /-- the kernel contracts are needed: a Krylov kernel that does not return `tr log A` makes the
-rule claim a wrong determinant (this is the shape of the recorded Lanczos defects: the kernel
-returns `nan` for a non-positive-definite leaf, or breaks down in the batched loop). -/
+rule claim a wrong determinant (this is the shape of the recorded Krylov defects
+`lanczos-batch-breakdown` — the batched Lanczos loop breaks down for one probe — and
+`krylov-blockdiag-zero-probe` — a zero probe block is normalised by 0.  The former `nan` of the
+real logarithm for a leaf with negative eigenvalues is NOT such a defect any more: repaired in
+/repo 3c4ea3a, the kernel takes the complex logarithm of the Ritz values). -/
 theorem C07_kernel_contract_needed :
     let K : DetKernels ℤ ℤ := ⟨fun _ _ => .error "none", fun _ _ => .error "none", fun _ _ _ => .ok 0⟩
     let A : Op ℤ := .dense .f64 1 1 (fun _ _ => 2)
